@@ -20,13 +20,64 @@ func init() {
 			"R01-optable/R01-layout — every opcode constant has a non-nil jumpTable handler and an opProps row, the operand fields derived from opcode.go's getters/setters tile the 32-bit word and agree with the size/max constants; " +
 			"R01-decode — every shift/mask a VM handler applies to an instruction word is one of the canonical field extractions, the fields a handler decodes fit the instruction format (ABC/ABx/ASbx) declared for its opcode, and sBx is decoded with the encoder's bias; " +
 			"R01-alloc — the number-boxing allocator only appends to its page and replaces it by a fresh one, preloads is written only by init; R01-emit — every opcode the compiler emits is emitted through the encoder matching its declared format and every opcode has an emission site. " +
-			"NOT decided: that the instruction sequence emitted for a statement/expression computes the Lua result (register allocation, jump threading, coercions, evaluation order) — a statement about run-time values.",
+			"R01-operands — in every VM handler all RK operand reads precede the handler's first register write (an operand may live in the destination register, or in a register the handler also writes); R15-mathmap luaModulo shape shared (the % operator's sign adjustment). NOT decided: that the instruction sequence emitted for a statement/expression computes the Lua result (register allocation, jump threading, coercions, evaluation order) — a statement about run-time values.",
 		Trusted: []string{"opcode semantics are those of the handler bodies; only the encoding/decoding agreement is checked"},
-		Rules:   []func(*Ctx){ruleOptable, ruleLayout, ruleDecode, ruleFold, ruleAlloc, ruleEmit},
+		Rules:   []func(*Ctx){ruleOptable, ruleLayout, ruleDecode, ruleFold, ruleAlloc, ruleEmit, ruleOperandOrder, ruleModuloSign},
 	})
 }
 
 // ---------------------------------------------------------------------------------------------
+
+// ruleOperandOrder: RK operand reads happen before any register write of the handler.
+func ruleOperandOrder(c *Ctx) {
+	const R = "R01-operands"
+	c.floor(R, 11)
+	p := c.P
+	t := p.vmTable()
+	rkV, rkS := p.Fn("lua", "(*LState).rkValue"), p.Fn("lua", "(*LState).rkString")
+	done := map[*ssa.Function]bool{}
+	for _, o := range t.Ops {
+		h := o.Handler
+		if h == nil || done[h] {
+			continue
+		}
+		done[h] = true
+		var reads []*ssa.Call
+		reads = append(reads, callsTo(h, rkV)...)
+		reads = append(reads, callsTo(h, rkS)...)
+		if len(reads) == 0 {
+			continue
+		}
+		c.touch(h)
+		g := p.G(h)
+		var bad ssa.Instruction
+		allInstrs(h, func(w ssa.Instruction) {
+			if bad != nil || !g.Live(w) {
+				return
+			}
+			if _, _, ok := p.isRegElemStore(w); !ok {
+				if sc := staticCallee(w); sc == nil || recvNamed(sc) != "registry" || !regWriteMethods[sc.Name()] || sc.Name() == "Pop" || sc.Name() == "Push" {
+					return
+				}
+			}
+			blk, i := after(w)
+			g.walk(blk, i, nil, func(x ssa.Instruction) bool {
+				for _, r := range reads {
+					if x == ssa.Instruction(r) {
+						bad = x
+						return true
+					}
+				}
+				return false
+			})
+		})
+		pos := p.pos(h.Pos())
+		if bad != nil {
+			pos = p.ipos(bad)
+		}
+		c.check(bad == nil, R, fname(h), pos, fmt.Sprintf("all %d RK operand reads precede the first register write", len(reads)), "an RK operand is read after the handler has already written a register: when the operand lives in that register (e.g. a method name LOADK'ed into R(A+1) because the function has more than 256 constants) it is clobbered before it is used")
+	}
+}
 
 func ruleOptable(c *Ctx) {
 	const R = "R01-optable"
